@@ -19,6 +19,7 @@ CONSTANTS
     Streams,      \* stream identifiers (positive integers; opened in any order)
     MaxPush,      \* messages the handler of a stream may write
     MaxSend,      \* messages the client may write on a stream
+    MaxBad,       \* client writes per stream that fail to encode
     Poll,         \* BOOLEAN: the server connection runs in the poll-mode branch of listen()
     AllowCut,     \* BOOLEAN: the connection may be cut (peer/network)
     AllowClose,   \* BOOLEAN: the client may close streams
@@ -45,6 +46,7 @@ VARIABLES
     cblocked,  \* cblocked[s]: a client ReadMessage is blocked on the empty queue
     cshut,     \* cshut[s]: a client ReadMessage/WriteMessage has returned ErrStreamShutdown
     nsent,     \* nsent[s]: messages the client wrote
+    nbad,      \* nbad[s]: client writes that failed to encode (nothing was sent)
     creader,   \* client reader: "reading" / "swept"
     \* ---- wires ----
     c2s, s2c, cut,
@@ -57,7 +59,7 @@ VARIABLES
     cackp,     \* close-stream requests dispatched whose acknowledgement is still to be written
     steardown  \* server connection: "serving" / "eof" / "done"
 
-vars == <<cph, flipped, cstop, cq, cgot, cblocked, cshut, nsent, creader, c2s, s2c, cut,
+vars == <<cph, flipped, cstop, cq, cgot, cblocked, cshut, nsent, nbad, creader, c2s, s2c, cut,
           sreg, sacked, hst, sstop, sq, sgot, sblocked, sshut, npush, cackp, steardown>>
 
 Msg(s, d, n) == <<s, d, n>>
@@ -66,7 +68,7 @@ F(k, s, n) == [k |-> k, s |-> s, n |-> n]    \* frame kinds: open ack msg close 
 Init ==
     /\ cph = [s \in Streams |-> "none"] /\ flipped = [s \in Streams |-> FALSE] /\ cstop = [s \in Streams |-> FALSE]
     /\ cq = [s \in Streams |-> <<>>] /\ cgot = [s \in Streams |-> <<>>] /\ cblocked = [s \in Streams |-> FALSE]
-    /\ cshut = [s \in Streams |-> FALSE] /\ nsent = [s \in Streams |-> 0] /\ creader = "reading"
+    /\ cshut = [s \in Streams |-> FALSE] /\ nsent = [s \in Streams |-> 0] /\ nbad = [s \in Streams |-> 0] /\ creader = "reading"
     /\ c2s = <<>> /\ s2c = <<>> /\ cut = FALSE
     /\ sreg = [s \in Streams |-> FALSE] /\ sacked = [s \in Streams |-> FALSE] /\ hst = [s \in Streams |-> "none"]
     /\ sstop = [s \in Streams |-> FALSE] /\ sq = [s \in Streams |-> <<>>] /\ sgot = [s \in Streams |-> <<>>]
@@ -81,7 +83,7 @@ Open(s) ==        \* NewStream: the open call is registered and written
     /\ cph[s] = "none" /\ creader = "reading"
     /\ cph' = [cph EXCEPT ![s] = "opening"]
     /\ c2s' = Send(c2s, F("open", s, 0))
-    /\ UNCHANGED <<flipped, cstop, cq, cgot, cblocked, cshut, nsent, creader, s2c, cut, sreg, sacked, hst, sstop, sq, sgot, sblocked, sshut, npush, cackp, steardown>>
+    /\ UNCHANGED <<flipped, cstop, cq, cgot, cblocked, cshut, nsent, nbad, creader, s2c, cut, sreg, sacked, hst, sstop, sq, sgot, sblocked, sshut, npush, cackp, steardown>>
 
 \* the reader takes a frame of stream s off the wire and dispatches it by the current phase of the opening call
 ReaderFrame(dFlipInCaller, dDup, dCross) ==
@@ -104,20 +106,26 @@ ReaderFrame(dFlipInCaller, dDup, dCross) ==
                      m == IF f.k = "msg" THEN Msg(s, "s2c", f.n) ELSE Msg(s, "s2c", 0) IN
                  /\ cq' = [cq EXCEPT ![t] = IF dDup THEN Append(Append(@, m), m) ELSE Append(@, m)]
                  /\ UNCHANGED <<cph, flipped>>
-    /\ UNCHANGED <<cstop, cgot, cblocked, cshut, nsent, creader, c2s, cut, sreg, sacked, hst, sstop, sq, sgot, sblocked, sshut, npush, cackp, steardown>>
+    /\ UNCHANGED <<cstop, cgot, cblocked, cshut, nsent, nbad, creader, c2s, cut, sreg, sacked, hst, sstop, sq, sgot, sblocked, sshut, npush, cackp, steardown>>
 
 \* NewStream returns to its caller once Done was signalled; (before fix D6) the caller then flips the call to streaming
 Established(s) ==
     /\ cph[s] = "acked"
     /\ cph' = [cph EXCEPT ![s] = "streaming"]
     /\ flipped' = [flipped EXCEPT ![s] = TRUE]
-    /\ UNCHANGED <<cstop, cq, cgot, cblocked, cshut, nsent, creader, c2s, s2c, cut, sreg, sacked, hst, sstop, sq, sgot, sblocked, sshut, npush, cackp, steardown>>
+    /\ UNCHANGED <<cstop, cq, cgot, cblocked, cshut, nsent, nbad, creader, c2s, s2c, cut, sreg, sacked, hst, sstop, sq, sgot, sblocked, sshut, npush, cackp, steardown>>
 
 CliWrite(s) ==
     /\ cph[s] = "streaming" /\ nsent[s] < MaxSend /\ ~cstop[s]
     /\ nsent' = [nsent EXCEPT ![s] = @ + 1]
     /\ c2s' = Send(c2s, F("msg", s, nsent[s] + 1))
-    /\ UNCHANGED <<cph, flipped, cstop, cq, cgot, cblocked, cshut, creader, s2c, cut, sreg, sacked, hst, sstop, sq, sgot, sblocked, sshut, npush, cackp, steardown>>
+    /\ UNCHANGED <<cph, flipped, cstop, cq, cgot, cblocked, cshut, nbad, creader, s2c, cut, sreg, sacked, hst, sstop, sq, sgot, sblocked, sshut, npush, cackp, steardown>>
+
+\* a client write whose message cannot be encoded: the call fails locally, nothing is sent, the stream stays usable
+CliWriteFail(s) ==
+    /\ cph[s] = "streaming" /\ nbad[s] < MaxBad /\ ~cstop[s]
+    /\ nbad' = [nbad EXCEPT ![s] = @ + 1]
+    /\ UNCHANGED <<cph, flipped, cstop, cq, cgot, cblocked, cshut, nsent, creader, c2s, s2c, cut, sreg, sacked, hst, sstop, sq, sgot, sblocked, sshut, npush, cackp, steardown>>
 
 \* client ReadMessage: takes the next event, or blocks, or reports the shutdown
 CliRead(s) ==
@@ -126,20 +134,20 @@ CliRead(s) ==
        ELSE IF cq[s] # <<>> THEN /\ cgot' = [cgot EXCEPT ![s] = Append(@, Head(cq[s]))] /\ cq' = [cq EXCEPT ![s] = Tail(@)]
                                  /\ cblocked' = [cblocked EXCEPT ![s] = FALSE] /\ UNCHANGED cshut
        ELSE /\ ~cblocked[s] /\ cblocked' = [cblocked EXCEPT ![s] = TRUE] /\ UNCHANGED <<cq, cgot, cshut>>
-    /\ UNCHANGED <<cph, flipped, cstop, nsent, creader, c2s, s2c, cut, sreg, sacked, hst, sstop, sq, sgot, sblocked, sshut, npush, cackp, steardown>>
+    /\ UNCHANGED <<cph, flipped, cstop, nsent, nbad, creader, c2s, s2c, cut, sreg, sacked, hst, sstop, sq, sgot, sblocked, sshut, npush, cackp, steardown>>
 
 \* Stream.Close on the client: stop the local end, then send close-stream (a call: it waits for its ack)
 CliClose(s) ==
     /\ AllowClose /\ cph[s] = "streaming"
     /\ cph' = [cph EXCEPT ![s] = "stopping"]
     /\ cstop' = [cstop EXCEPT ![s] = TRUE]
-    /\ UNCHANGED <<flipped, cq, cgot, cblocked, cshut, nsent, creader, c2s, s2c, cut, sreg, sacked, hst, sstop, sq, sgot, sblocked, sshut, npush, cackp, steardown>>
+    /\ UNCHANGED <<flipped, cq, cgot, cblocked, cshut, nsent, nbad, creader, c2s, s2c, cut, sreg, sacked, hst, sstop, sq, sgot, sblocked, sshut, npush, cackp, steardown>>
 
 CloseSend(s) ==
     /\ cph[s] = "stopping" /\ creader = "reading"
     /\ cph' = [cph EXCEPT ![s] = "closing"]
     /\ c2s' = Send(c2s, F("close", s, 0))
-    /\ UNCHANGED <<flipped, cstop, cq, cgot, cblocked, cshut, nsent, creader, s2c, cut, sreg, sacked, hst, sstop, sq, sgot, sblocked, sshut, npush, cackp, steardown>>
+    /\ UNCHANGED <<flipped, cstop, cq, cgot, cblocked, cshut, nsent, nbad, creader, s2c, cut, sreg, sacked, hst, sstop, sq, sgot, sblocked, sshut, npush, cackp, steardown>>
 
 \* the connection ended: the reader completes pending calls and stops every stream
 CliSweep(dNoSweep) ==
@@ -147,7 +155,7 @@ CliSweep(dNoSweep) ==
     /\ creader' = "swept"
     /\ cstop' = IF dNoSweep THEN cstop ELSE [s \in Streams |-> cstop[s] \/ cph[s] # "none"]
     /\ cph' = [s \in Streams |-> IF cph[s] \in {"opening", "stopping", "closing"} THEN "closed" ELSE cph[s]]   \* their calls fail with ErrShutdown
-    /\ UNCHANGED <<flipped, cq, cgot, cblocked, cshut, nsent, c2s, s2c, cut, sreg, sacked, hst, sstop, sq, sgot, sblocked, sshut, npush, cackp, steardown>>
+    /\ UNCHANGED <<flipped, cq, cgot, cblocked, cshut, nsent, nbad, c2s, s2c, cut, sreg, sacked, hst, sstop, sq, sgot, sblocked, sshut, npush, cackp, steardown>>
 
 --------------------------------------------------------------------------------
 \* Server side.
@@ -168,13 +176,13 @@ SrvFrame(dCloseWrong) ==          \* decode worker: ServeRequest for the next fr
                  /\ sreg' = [sreg EXCEPT ![t] = FALSE]
                  /\ cackp' = cackp \cup {s}
                  /\ UNCHANGED <<sq, s2c>>
-    /\ UNCHANGED <<cph, flipped, cstop, cq, cgot, cblocked, cshut, nsent, creader, cut, sacked, hst, sgot, sblocked, sshut, npush, steardown>>
+    /\ UNCHANGED <<cph, flipped, cstop, cq, cgot, cblocked, cshut, nsent, nbad, creader, cut, sacked, hst, sgot, sblocked, sshut, npush, steardown>>
 
 SrvCloseAck(s) ==     \* the acknowledgement of a close-stream request is written
     /\ s \in cackp
     /\ cackp' = cackp \ {s}
     /\ s2c' = Send(s2c, F("closeack", s, 0))
-    /\ UNCHANGED <<cph, flipped, cstop, cq, cgot, cblocked, cshut, nsent, creader, c2s, cut, sreg, sacked, hst, sstop, sq, sgot, sblocked, sshut, npush, steardown>>
+    /\ UNCHANGED <<cph, flipped, cstop, cq, cgot, cblocked, cshut, nsent, nbad, creader, c2s, cut, sreg, sacked, hst, sstop, sq, sgot, sblocked, sshut, npush, steardown>>
 
 \* callService for an open-stream request: the ack is written and the handler goroutine started
 \* (intended order: ack first; the code before fix D6 starts the goroutine first)
@@ -182,19 +190,19 @@ SrvAck(s) ==
     /\ sreg[s] /\ ~sacked[s]
     /\ sacked' = [sacked EXCEPT ![s] = TRUE]
     /\ s2c' = Send(s2c, F("ack", s, 0))
-    /\ UNCHANGED <<cph, flipped, cstop, cq, cgot, cblocked, cshut, nsent, creader, c2s, cut, sreg, hst, sstop, sq, sgot, sblocked, sshut, npush, cackp, steardown>>
+    /\ UNCHANGED <<cph, flipped, cstop, cq, cgot, cblocked, cshut, nsent, nbad, creader, c2s, cut, sreg, hst, sstop, sq, sgot, sblocked, sshut, npush, cackp, steardown>>
 
 HandlerStart(s, dEarly) ==
     /\ sreg[s] /\ hst[s] = "none"
     /\ (sacked[s] \/ dEarly)
     /\ hst' = [hst EXCEPT ![s] = "running"]
-    /\ UNCHANGED <<cph, flipped, cstop, cq, cgot, cblocked, cshut, nsent, creader, c2s, s2c, cut, sreg, sacked, sstop, sq, sgot, sblocked, sshut, npush, cackp, steardown>>
+    /\ UNCHANGED <<cph, flipped, cstop, cq, cgot, cblocked, cshut, nsent, nbad, creader, c2s, s2c, cut, sreg, sacked, sstop, sq, sgot, sblocked, sshut, npush, cackp, steardown>>
 
 Push(s) ==        \* the handler writes a message
     /\ hst[s] = "running" /\ npush[s] < MaxPush /\ ~sstop[s]
     /\ npush' = [npush EXCEPT ![s] = @ + 1]
     /\ s2c' = Send(s2c, F("msg", s, npush[s] + 1))
-    /\ UNCHANGED <<cph, flipped, cstop, cq, cgot, cblocked, cshut, nsent, creader, c2s, cut, sreg, sacked, hst, sstop, sq, sgot, sblocked, sshut, cackp, steardown>>
+    /\ UNCHANGED <<cph, flipped, cstop, cq, cgot, cblocked, cshut, nsent, nbad, creader, c2s, cut, sreg, sacked, hst, sstop, sq, sgot, sblocked, sshut, cackp, steardown>>
 
 SrvRead(s) ==     \* the handler reads
     /\ hst[s] = "running"
@@ -202,29 +210,29 @@ SrvRead(s) ==     \* the handler reads
        ELSE IF sq[s] # <<>> THEN /\ sgot' = [sgot EXCEPT ![s] = Append(@, Head(sq[s]))] /\ sq' = [sq EXCEPT ![s] = Tail(@)]
                                  /\ sblocked' = [sblocked EXCEPT ![s] = FALSE] /\ UNCHANGED sshut
        ELSE /\ ~sblocked[s] /\ sblocked' = [sblocked EXCEPT ![s] = TRUE] /\ UNCHANGED <<sq, sgot, sshut, cackp>>
-    /\ UNCHANGED <<cph, flipped, cstop, cq, cgot, cblocked, cshut, nsent, creader, c2s, s2c, cut, sreg, sacked, hst, sstop, npush, cackp, steardown>>
+    /\ UNCHANGED <<cph, flipped, cstop, cq, cgot, cblocked, cshut, nsent, nbad, creader, c2s, s2c, cut, sreg, sacked, hst, sstop, npush, cackp, steardown>>
 
 HandlerReturn(s) ==   \* a handler returns once it has seen the shutdown (a handler blocked in Read cannot return)
     /\ hst[s] = "running" /\ sshut[s]
     /\ hst' = [hst EXCEPT ![s] = "returned"]
-    /\ UNCHANGED <<cph, flipped, cstop, cq, cgot, cblocked, cshut, nsent, creader, c2s, s2c, cut, sreg, sacked, sstop, sq, sgot, sblocked, sshut, npush, cackp, steardown>>
+    /\ UNCHANGED <<cph, flipped, cstop, cq, cgot, cblocked, cshut, nsent, nbad, creader, c2s, s2c, cut, sreg, sacked, sstop, sq, sgot, sblocked, sshut, npush, cackp, steardown>>
 
 \* the server reader saw the end of the stream; the teardown (wait, close codec) then closes every stream still in the table
 SrvEOF ==       \* (frames read before the end may still be waiting for the decode worker: the teardown drains them first)
     /\ steardown = "serving" /\ cut
     /\ steardown' = "eof"
-    /\ UNCHANGED <<cph, flipped, cstop, cq, cgot, cblocked, cshut, nsent, creader, c2s, s2c, cut, sreg, sacked, hst, sstop, sq, sgot, sblocked, sshut, npush, cackp>>
+    /\ UNCHANGED <<cph, flipped, cstop, cq, cgot, cblocked, cshut, nsent, nbad, creader, c2s, s2c, cut, sreg, sacked, hst, sstop, sq, sgot, sblocked, sshut, npush, cackp>>
 
 SrvTeardown(dNoSweep) ==
     /\ steardown = "eof" /\ c2s = <<>>
     /\ steardown' = "done"
     /\ sstop' = IF dNoSweep THEN sstop ELSE [s \in Streams |-> sstop[s] \/ sreg[s]]
-    /\ UNCHANGED <<cph, flipped, cstop, cq, cgot, cblocked, cshut, nsent, creader, c2s, s2c, cut, sreg, sacked, hst, sq, sgot, sblocked, sshut, npush, cackp>>
+    /\ UNCHANGED <<cph, flipped, cstop, cq, cgot, cblocked, cshut, nsent, nbad, creader, c2s, s2c, cut, sreg, sacked, hst, sq, sgot, sblocked, sshut, npush, cackp>>
 
 Cut ==
     /\ AllowCut /\ ~cut
     /\ cut' = TRUE
-    /\ UNCHANGED <<cph, flipped, cstop, cq, cgot, cblocked, cshut, nsent, creader, c2s, s2c, sreg, sacked, hst, sstop, sq, sgot, sblocked, sshut, npush, cackp, steardown>>
+    /\ UNCHANGED <<cph, flipped, cstop, cq, cgot, cblocked, cshut, nsent, nbad, creader, c2s, s2c, sreg, sacked, hst, sstop, sq, sgot, sblocked, sshut, npush, cackp, steardown>>
 
 LibraryStep ==
     \/ \E d1 \in DevChoice("FlipInCaller") : \E d2 \in DevChoice("DupDeliver") : \E d3 \in DevChoice("CrossDeliver") : ReaderFrame(d1, d2, d3)
@@ -237,7 +245,7 @@ LibraryStep ==
     \/ \E d \in (IF Poll THEN DevChoice("PollNoStreamSweep") ELSE {FALSE}) : SrvTeardown(d)
 
 UserStep ==
-    \/ \E s \in Streams : Open(s) \/ CliWrite(s) \/ CliRead(s) \/ CliClose(s)
+    \/ \E s \in Streams : Open(s) \/ CliWrite(s) \/ CliWriteFail(s) \/ CliRead(s) \/ CliClose(s)
     \/ \E s \in Streams : Push(s) \/ SrvRead(s) \/ HandlerReturn(s)
     \/ Cut
 
